@@ -406,6 +406,18 @@ def main(ctx: Ctx) -> int:
                 ev.append({"act": "Rerender", "i": i, "fmt": fmt, "code": str(code), "direct_ok": True, "refused": refused,
                            "same_law": bool(sv) if sv is not None else True, "direct": direct.get(i, "")[:120],
                            "rerendered": "" if refused else rerend.get(i, "")[:120], "err": rerr})
+            if direct is not None and ti % (2 if ctx.quick else 4) == 0:
+                # beyond the listed properties: the KROME copy of the network (Network.write(..., "krome")) read back by the KROME reader
+                ke = {"act": "KromeCopy", "ok": True, "recs": [], "same_rate": [], "err": ""}
+                try:
+                    net.write(d / "k.krome", "krome")
+                    nk = Network(filelist=str(d / "k.krome"), fileformats="krome")
+                    ke["recs"] = [{"idx": o_["idx"], "r": o_["r"], "p": o_["p"], "tmin": o_["tmin"], "tmax": o_["tmax"]} for o_ in obs_net(nk)]
+                    krates = rate_exprs(ctx, nk, f"{ti}_k")
+                    ke["same_rate"] = [same_value(direct.get(i, ""), krates.get(i, "")) is not False for i in range(len(ke["recs"]))]
+                except Exception as ex:  # noqa
+                    ke["ok"], ke["err"] = False, f"{type(ex).__name__}: {str(ex)[:100]}"
+                ev.append(ke)
         traces.append({"tid": ti + 1, "net": header, "pr": [[k, v] for k, v in pr.items()], "ev": ev, "origin": origin})
     xt = export_cases(ctx, rng, 3 if ctx.quick else 40, len(traces))
     cov["exported_projects_rerendered_in_a_fresh_process"] = len(xt)
@@ -415,6 +427,16 @@ def main(ctx: Ctx) -> int:
     cov["traces_accepted"] = v["accepted"]
     cov["trace_states"] = v["states"]
     cov["rerender_comparisons"] = sum(1 for t in traces for e in t["ev"] if e["act"] == "Rerender")
+    cov["krome_copies_read_back"] = sum(1 for t in traces for e in t["ev"] if e["act"] == "KromeCopy")
+    kn: dict = {}
+    byt = {t["tid"]: t for t in traces}
+    for tid_, lst in sorted(v.get("notes", {}).items()):
+        for l_, clause_ in lst:
+            kn[clause_] = kn.get(clause_, 0) + 1
+            if kn[clause_] <= 2:
+                e_ = byt[tid_]["ev"][max(0, min(l_, len(byt[tid_]["ev"])) - 1)]
+                ctx.notes.append(f"beyond the listed properties: {clause_} fails for the KROME copy of a {byt[tid_]['origin']} network: {e_.get('err') or e_.get('recs', [])[:1]}")
+    cov["krome_copy_mismatches_beyond_listed_properties"] = kn
     by = {t["tid"]: t for t in traces}
     for tid, rj in sorted(v["rejected"].items()):
         clause = (rj["clauses"] or ["NoEnabledAction"])[0]
